@@ -33,6 +33,12 @@ CHECKS = {
     text='Machine-checked proof about the value-level model of the doEquals chain (Entity, NamedEntity, ImportedEntity, ImportSource, Units, Variable, Reset, ComponentEntity, Component, Model, equalEntities): for units, variables and resets equals is exactly equality of every covered attribute with children compared up to order; for components and models with a size test on every child kind (Fixed_sizeTest) equals holds iff the two trees are isomorphic up to child order at every depth, so it is reflexive, symmetric, transitive, order-insensitive, false on differing child counts and false in both directions after any single covered alteration (cancellation lemma).  For the current tree (variables matched without a size test, pinned by Equality.parseMath) the same is proved on trees with a uniform variable count and refuted by kernel-evaluated witnesses otherwise (known finding).  Tie: generated entities of all five kinds against the real equals() in both directions on copies, child-order permutations at every level, single-site mutations at any depth and permutation triples.',
     note='Trusted: Lean kernel; hx_equals.cpp/hx_entity.h and the driver; generators and pair oracle.  areNearlyEqual 1-ulp band abstracted to token equality; parents/equivalences outside equality by design; one known finding (variable count), attributed only when implementation = current model and the Fixed_sizeTest model satisfies the oracle.',
     design='4 C10'),
+ 'C13': dict(
+    engine='annot',
+    technique='Lean 4 proof: makeUniqueId terminates with a fresh id (pigeonhole + injectivity of the hex rendering); cache/model synchronisation invariant by induction over all operation histories; post-condition of assignAllIds/assignId/lookups; kernel-checked witness of the superseded stale-cache behaviour; exact-id differential run on generated models and histories',
+    text='Machine-checked proof about the slot-level model of the Annotator bookkeeping (update/hash snapshot, makeUniqueId, doSetAllAutomaticIds visit sequence, assignIds, setAutoId, clearAllIds, lookups): the hex rendering of the counter is injective and makeUniqueId terminates within |list|+1 increments with an identifier outside the list; in every history of setModel / direct model edits / assignments / clearAllIds / lookups the identifier list is synchronised with the recorded model state, hence assignAllIds at any point fills every slot the traversal reaches, leaves existing identifiers unchanged and assigns identifiers that occur exactly once afterwards (distinct from everything present at call time, including edits made after setModel, and from each other); assignId gives a fresh identifier and touches nothing else; itemCount/item agree with the model.  The superseded no-refresh behaviour is refuted by a kernel-evaluated history.  Tie: real Annotator on generated models with duplicated and auto-id-shaped identifiers and connections; after every operation all identifiers of the real model are compared exactly with the model, and an independent oracle checks the post-conditions on the implementation.',
+    note='Trusted: Lean kernel; hx_annot.cpp (independent slot/visit traversal) and driver; generator/oracle.  Not modelled: std::hash collisions, item(id,index) among duplicates, MathML ids, shared ImportSource objects, variables with several equivalences (connection-id getter is address dependent, C12), Printer::printModel(model,true).',
+    design='4 C13'),
 }
 
 def manifest():
@@ -61,7 +67,8 @@ def manifest():
                    enable='each check configures /repo into a scratch dir with -DCMAKE_CXX_FLAGS=-DLIBCELLML_VERIF (vlib/common.py: build_lib) and links harness/hx_*.cpp against the static library',
                    baseline_off_cmd='python3 tools/baseline_off.py',
                    source_commits=hooks['source_commits'], add_only=True),
-        engines=[dict(name='equals', path='harness/hx_equals.cpp + hx_entity.h + lean/Cellml/Engine/Equals.lean', serves_properties=['C10'], kind_free_text='differential: real equals() vs value-level Lean model on generated pairs'),
+        engines=[dict(name='annot', path='harness/hx_annot.cpp + lean/Cellml/Engine/Annot.lean', serves_properties=['C13'], kind_free_text='differential: real Annotator histories vs slot-level Lean model, exact identifiers after every operation'),
+                 dict(name='equals', path='harness/hx_equals.cpp + hx_entity.h + lean/Cellml/Engine/Equals.lean', serves_properties=['C10'], kind_free_text='differential: real equals() vs value-level Lean model on generated pairs'),
                  dict(name='units', path='harness/hx_units.cpp + lean/Cellml/Engine/Units.lean', serves_properties=['C08'], kind_free_text='differential: real Units::compatible/scalingFactor/equivalent/updateUnitMultiplier vs exact-rational Lean model'),
                  dict(name='equiv', path='harness/hx_equiv.cpp + lean/Cellml/Engine/Equiv.lean', serves_properties=['C18'], kind_free_text='differential: real equivalence queries/cache key vs Lean model; arena placement of objects'),
                  dict(name='logger', path='harness/hx_logger.cpp + lean/Cellml/Engine/Logger.lean', serves_properties=['C15'], kind_free_text='trace replay: hook-traced logger operations of real service calls vs Lean logger model'),
